@@ -16,7 +16,7 @@ CFG = {
                   "txscript predicates (all compared with the real functions on every run); int64 modelled as unbounded "
                   "Int; compressed public keys only.",
     "lean_props": ["BtcwVerif.Props.C07"],
-    "engines": ["author"],
+    "engines": ["author", "walletchain-tx"],
     "extractors": [{"name": "sizes", "out": "SizesGen.lean"}],
     "trusted_base": COMMON_TB + [
         "translator harness/cmd/vxextract/sizes.go (Go AST → Lean) for the statement forms used by txsizes/txrules today; "
